@@ -153,4 +153,387 @@ theorem erase_insert_comm (old new : Str) (v : Val) (hne : old ≠ new) : ∀ kv
         simp [insert, erase, h]
       · simp [insert, erase, h, h', ih]
 
+/-! ### well-formedness / no-empty-list descend along `lookup` and `getPath` -/
+
+theorem wfEntries_lookup (k : Str) (v : Val) : ∀ kvs : Entries,
+    Val.wfEntries kvs = true → lookup k kvs = some v → v.wf = true := by
+  intro kvs
+  induction kvs with
+  | nil => intro _ h; simp [lookup] at h
+  | cons e rest ih =>
+    obtain ⟨k₀, v₀⟩ := e
+    intro hw h
+    simp only [Val.wfEntries, Bool.and_eq_true] at hw
+    by_cases hk : k = k₀
+    · simp [lookup, hk] at h; subst h; exact hw.1
+    · simp [lookup, hk] at h; exact ih hw.2 h
+
+theorem wf_lookup (kvs : Entries) (k : Str) (v : Val) (hw : (Val.map kvs).wf = true)
+    (h : lookup k kvs = some v) : v.wf = true := by
+  simp only [Val.wf, Bool.and_eq_true] at hw
+  exact wfEntries_lookup k v kvs hw.1 h
+
+theorem wf_distinct (kvs : Entries) (hw : (Val.map kvs).wf = true) : distinctKeys kvs = true := by
+  simp only [Val.wf, Bool.and_eq_true] at hw
+  exact hw.2
+
+theorem noEmptyListE_lookup (k : Str) (v : Val) : ∀ kvs : Entries,
+    noEmptyListE kvs = true → lookup k kvs = some v → noEmptyList v = true := by
+  intro kvs
+  induction kvs with
+  | nil => intro _ h; simp [lookup] at h
+  | cons e rest ih =>
+    obtain ⟨k₀, v₀⟩ := e
+    intro hw h
+    simp only [noEmptyListE, Bool.and_eq_true] at hw
+    by_cases hk : k = k₀
+    · simp [lookup, hk] at h; subst h; exact hw.1
+    · simp [lookup, hk] at h; exact ih hw.2 h
+
+theorem noEmptyList_getPath : ∀ (ks : List Str) (m v : Val),
+    noEmptyList m = true → getPath m ks = some v → noEmptyList v = true := by
+  intro ks
+  induction ks with
+  | nil => intro m v hm h; simp [getPath] at h; subst h; exact hm
+  | cons k ks ih =>
+    intro m v hm h
+    cases m with
+    | map kvs =>
+      simp only [getPath] at h
+      cases hl : lookup k kvs with
+      | none => simp [hl] at h
+      | some c =>
+        simp only [hl] at h
+        simp only [noEmptyList] at hm
+        exact ih c v (noEmptyListE_lookup k c kvs hm hl) h
+    | _ => simp [getPath] at h
+
+theorem wf_getPath : ∀ (ks : List Str) (m v : Val),
+    m.wf = true → getPath m ks = some v → v.wf = true := by
+  intro ks
+  induction ks with
+  | nil => intro m v hm h; simp [getPath] at h; subst h; exact hm
+  | cons k ks ih =>
+    intro m v hm h
+    cases m with
+    | map kvs =>
+      simp only [getPath] at h
+      cases hl : lookup k kvs with
+      | none => simp [hl] at h
+      | some c =>
+        simp only [hl] at h
+        exact ih c v (wf_lookup kvs k c hm hl) h
+    | _ => simp [getPath] at h
+
+/-- the leaf loader yields something for every value except the empty list -/
+theorem loadLeaf_none_ne_nil (v : Val) (h : noEmptyList v = true) : loadLeaf none v ≠ [] := by
+  cases v with
+  | list xs =>
+    cases xs with
+    | nil => simp [noEmptyList] at h
+    | cons x xs =>
+      have : passSubs none x = true := rfl
+      simp [loadLeaf, this]
+  | map kvs => simp [loadLeaf, passSubs]
+  | _ => simp [loadLeaf]
+
+theorem loadLeaf_none_notList (v : Val) (h : v.isList = false) : loadLeaf none v = [v] := by
+  cases v with
+  | list xs => simp [Val.isList] at h
+  | map kvs => simp [loadLeaf, passSubs]
+  | _ => simp [loadLeaf]
+
+/-! ### the abstract algebra: unfolding equations -/
+
+theorem getPath_nil (m : Val) : getPath m [] = some m := by
+  cases m <;> rfl
+
+theorem getPath_map_cons (kvs : Entries) (k : Str) (ks : List Str) :
+    getPath (.map kvs) (k :: ks) = (lookup k kvs).bind (fun v => getPath v ks) := by
+  simp only [getPath]; cases lookup k kvs <;> rfl
+
+theorem getPath_notMap_cons (m : Val) (k : Str) (ks : List Str) (h : m.isMap = false) :
+    getPath m (k :: ks) = none := by
+  cases m <;> first | rfl | simp [Val.isMap] at h
+
+theorem getPath_append : ∀ (ks r : List Str) (m : Val),
+    getPath m (ks ++ r) = (getPath m ks).bind (fun v => getPath v r) := by
+  intro ks
+  induction ks with
+  | nil => intro r m; simp [getPath_nil]
+  | cons k ks ih =>
+    intro r m
+    cases m with
+    | map kvs =>
+      simp only [List.cons_append, getPath_map_cons]
+      cases lookup k kvs with
+      | none => rfl
+      | some c => simp [ih]
+    | _ => simp [getPath]
+
+theorem setPath_notMap (nv m : Val) (ks : List Str) (h : m.isMap = false) : setPath nv m ks = m := by
+  cases m <;> first | (simp [Val.isMap] at h; done) | (unfold setPath; rfl)
+
+theorem setPath_nil (nv m : Val) : setPath nv m [] = m := by
+  cases m <;> (unfold setPath; rfl)
+
+theorem setPath_cons_ne (nv : Val) (kvs : Entries) (k : Str) (ks : List Str) (h : ks ≠ []) :
+    setPath nv (.map kvs) (k :: ks) = match lookup k kvs with
+      | some v => .map (insert k (setPath nv v ks) kvs)
+      | none => .map kvs := by
+  cases ks with
+  | nil => exact absurd rfl h
+  | cons k' ks' => simp only [setPath]; cases lookup k kvs <;> rfl
+
+theorem erasePath_notMap (m : Val) (ks : List Str) (h : m.isMap = false) : erasePath m ks = m := by
+  cases m <;> first | (simp [Val.isMap] at h; done) | (unfold erasePath; rfl)
+
+theorem erasePath_nil (m : Val) : erasePath m [] = m := by
+  cases m <;> (unfold erasePath; rfl)
+
+theorem erasePath_cons_ne (kvs : Entries) (k : Str) (ks : List Str) (h : ks ≠ []) :
+    erasePath (.map kvs) (k :: ks) = match lookup k kvs with
+      | some v => .map (insert k (erasePath v ks) kvs)
+      | none => .map kvs := by
+  cases ks with
+  | nil => exact absurd rfl h
+  | cons k' ks' => simp only [erasePath]; cases lookup k kvs <;> rfl
+
+/-- `erasePath`/`setPath` never change which kind of value sits at the root -/
+theorem erasePath_isList (m : Val) (ks : List Str) : (erasePath m ks).isList = m.isList := by
+  cases m with
+  | map kvs =>
+    cases ks with
+    | nil => rfl
+    | cons k ks =>
+      cases ks with
+      | nil => rfl
+      | cons k' ks' => simp only [erasePath]; cases lookup k kvs <;> rfl
+  | _ => rw [erasePath_notMap _ _ rfl]
+
+theorem setPath_isList (nv m : Val) (ks : List Str) : (setPath nv m ks).isList = m.isList := by
+  cases m with
+  | map kvs =>
+    cases ks with
+    | nil => rfl
+    | cons k ks =>
+      cases ks with
+      | nil => rfl
+      | cons k' ks' => simp only [setPath]; cases lookup k kvs <;> rfl
+  | _ => rw [setPath_notMap _ _ _ rfl]
+
+/-! ### "no list on the way" -/
+
+/-- following `ks` from `m` through maps, no *proper* prefix of `ks` resolves to a list
+    (a list met before the end is where `walk`/`walkLoc` leave the pure-map world). -/
+def noListBefore (m : Val) (ks : List Str) : Prop :=
+  ∀ pre xs, pre <+: ks → pre ≠ ks → getPath m pre ≠ some (.list xs)
+
+theorem noListBefore_nil (m : Val) : noListBefore m [] := by
+  intro pre xs hp hne
+  exact absurd (List.prefix_nil.1 hp) hne
+
+theorem noListBefore_map_cons (kvs : Entries) (k : Str) (ks : List Str) :
+    noListBefore (.map kvs) (k :: ks) ↔ ∀ c, lookup k kvs = some c → noListBefore c ks := by
+  constructor
+  · intro h c hl pre xs hp hne hg
+    refine h (k :: pre) xs (List.cons_prefix_cons.2 ⟨rfl, hp⟩) (by simpa using hne) ?_
+    simp [getPath_map_cons, hl, hg]
+  · intro h pre xs hp hne hg
+    cases pre with
+    | nil => simp [getPath_nil] at hg
+    | cons k2 pre' =>
+      obtain ⟨hk, hp'⟩ := List.cons_prefix_cons.1 hp
+      subst hk
+      rw [getPath_map_cons] at hg
+      cases hl : lookup k2 kvs with
+      | none => simp [hl] at hg
+      | some c =>
+        simp only [hl, Option.bind_some] at hg
+        exact h c hl pre' xs hp' (by simpa using hne) hg
+
+theorem noListBefore_list_cons (xs : List Val) (k : Str) (ks : List Str) :
+    ¬ noListBefore (.list xs) (k :: ks) := fun h =>
+  h [] xs List.nil_prefix (by simp) rfl
+
+theorem noListBefore_of_getPath_some : ∀ (ks : List Str) (m v : Val),
+    getPath m ks = some v → noListBefore m ks := by
+  intro ks
+  induction ks with
+  | nil => intro m v _; exact noListBefore_nil m
+  | cons k ks ih =>
+    intro m v h
+    cases m with
+    | map kvs =>
+      rw [noListBefore_map_cons]
+      intro c hl
+      rw [getPath_map_cons, hl] at h
+      exact ih c v h
+    | _ => simp [getPath] at h
+
+theorem noListBefore_prefix (m : Val) (ks r : List Str) (h : noListBefore m (ks ++ r)) :
+    noListBefore m ks := by
+  intro pre xs hp hne hg
+  refine h pre xs (List.IsPrefix.trans hp (List.prefix_append ks r)) ?_ hg
+  intro e
+  have hlen := List.IsPrefix.length_le hp
+  rw [e, List.length_append] at hlen
+  have h2 : r = [] := List.eq_nil_of_length_eq_zero (by omega)
+  subst h2
+  exact hne (by simpa using e)
+
+/-! ### get / set / erase algebra -/
+
+theorem getPath_setPath_ext (nv : Val) : ∀ (segs : List Str) (m pm : Val) (r : List Str),
+    segs ≠ [] → getPath m segs.dropLast = some pm → pm.isMap = true →
+    getPath (setPath nv m segs) (segs ++ r) = getPath nv r := by
+  intro segs
+  induction segs with
+  | nil => intro m pm r h; exact absurd rfl h
+  | cons k ks ih =>
+    intro m pm r _ hp hpm
+    cases ks with
+    | nil =>
+      simp only [List.dropLast_singleton, getPath_nil, Option.some.injEq] at hp
+      subst hp
+      cases m with
+      | map kvs =>
+        simp [setPath, getPath_map_cons, lookup_insert_self]
+      | _ => simp [Val.isMap] at hpm
+    | cons k' ks' =>
+      rw [List.dropLast_cons_cons] at hp
+      cases m with
+      | map kvs =>
+        rw [getPath_map_cons] at hp
+        cases hl : lookup k kvs with
+        | none => simp [hl] at hp
+        | some c =>
+          simp only [hl, Option.bind_some] at hp
+          rw [setPath_cons_ne nv kvs k (k' :: ks') (by simp)]
+          simp only [hl, List.cons_append]
+          rw [getPath_map_cons, lookup_insert_self]
+          exact ih c pm r (by simp) hp hpm
+      | _ => simp [getPath] at hp
+
+theorem getPath_setPath_frame (nv : Val) : ∀ (segs q : List Str) (m : Val),
+    ¬ segs <+: q → ¬ q <+: segs → getPath (setPath nv m segs) q = getPath m q := by
+  intro segs
+  induction segs with
+  | nil => intro q m h; exact absurd List.nil_prefix h
+  | cons k ks ih =>
+    intro q m h1 h2
+    cases q with
+    | nil => exact absurd List.nil_prefix h2
+    | cons k2 qs =>
+      cases m with
+      | map kvs =>
+        by_cases hk : k2 = k
+        · subst hk
+          have h1' : ¬ ks <+: qs := fun h => h1 (List.cons_prefix_cons.2 ⟨rfl, h⟩)
+          have h2' : ¬ qs <+: ks := fun h => h2 (List.cons_prefix_cons.2 ⟨rfl, h⟩)
+          have hne : ks ≠ [] := fun e => h1' (e ▸ List.nil_prefix)
+          rw [setPath_cons_ne nv kvs k2 ks hne]
+          cases hl : lookup k2 kvs with
+          | none => rfl
+          | some c =>
+            simp only [getPath_map_cons, lookup_insert_self, hl, Option.bind_some]
+            exact ih qs c h1' h2'
+        · cases ks with
+          | nil =>
+            simp only [setPath, getPath_map_cons, lookup_insert_ne k k2 nv hk]
+          | cons k' ks' =>
+            rw [setPath_cons_ne nv kvs k (k' :: ks') (by simp)]
+            cases hl : lookup k kvs with
+            | none => rfl
+            | some c => simp only [getPath_map_cons, lookup_insert_ne k k2 _ hk]
+      | _ => rw [setPath_notMap _ _ _ rfl]
+
+theorem getPath_setPath_prefix (nv : Val) : ∀ (q r : List Str) (m : Val), r ≠ [] →
+    getPath (setPath nv m (q ++ r)) q = (getPath m q).map (fun sub => setPath nv sub r) := by
+  intro q
+  induction q with
+  | nil => intro r m _; simp [getPath_nil]
+  | cons k q ih =>
+    intro r m hr
+    cases m with
+    | map kvs =>
+      rw [List.cons_append, setPath_cons_ne nv kvs k (q ++ r) (by simp [hr])]
+      cases hl : lookup k kvs with
+      | none => simp [getPath_map_cons, hl]
+      | some c =>
+        simp only [getPath_map_cons, lookup_insert_self, hl, Option.bind_some]
+        exact ih r c hr
+    | _ => rw [setPath_notMap _ _ _ rfl, getPath_notMap_cons _ _ _ rfl]; rfl
+
+theorem getPath_erasePath_ext : ∀ (segs : List Str) (m : Val) (r : List Str),
+    segs ≠ [] → m.wf = true → getPath (erasePath m segs) (segs ++ r) = none := by
+  intro segs
+  induction segs with
+  | nil => intro m r h; exact absurd rfl h
+  | cons k ks ih =>
+    intro m r _ hw
+    cases m with
+    | map kvs =>
+      cases ks with
+      | nil =>
+        simp [erasePath, getPath_map_cons, lookup_erase_self k kvs (wf_distinct kvs hw)]
+      | cons k' ks' =>
+        rw [erasePath_cons_ne kvs k (k' :: ks') (by simp)]
+        cases hl : lookup k kvs with
+        | none => simp [getPath_map_cons, hl]
+        | some c =>
+          simp only [List.cons_append, getPath_map_cons, lookup_insert_self, Option.bind_some]
+          exact ih c r (by simp) (wf_lookup kvs k c hw hl)
+    | _ => rw [erasePath_notMap _ _ rfl]; exact getPath_notMap_cons _ _ _ rfl
+
+theorem getPath_erasePath_frame : ∀ (segs q : List Str) (m : Val),
+    ¬ segs <+: q → ¬ q <+: segs → getPath (erasePath m segs) q = getPath m q := by
+  intro segs
+  induction segs with
+  | nil => intro q m h; exact absurd List.nil_prefix h
+  | cons k ks ih =>
+    intro q m h1 h2
+    cases q with
+    | nil => exact absurd List.nil_prefix h2
+    | cons k2 qs =>
+      cases m with
+      | map kvs =>
+        by_cases hk : k2 = k
+        · subst hk
+          have h1' : ¬ ks <+: qs := fun h => h1 (List.cons_prefix_cons.2 ⟨rfl, h⟩)
+          have h2' : ¬ qs <+: ks := fun h => h2 (List.cons_prefix_cons.2 ⟨rfl, h⟩)
+          have hne : ks ≠ [] := fun e => h1' (e ▸ List.nil_prefix)
+          rw [erasePath_cons_ne kvs k2 ks hne]
+          cases hl : lookup k2 kvs with
+          | none => rfl
+          | some c =>
+            simp only [getPath_map_cons, lookup_insert_self, hl, Option.bind_some]
+            exact ih qs c h1' h2'
+        · cases ks with
+          | nil =>
+            simp only [erasePath, getPath_map_cons, lookup_erase_ne k k2 hk]
+          | cons k' ks' =>
+            rw [erasePath_cons_ne kvs k (k' :: ks') (by simp)]
+            cases hl : lookup k kvs with
+            | none => rfl
+            | some c => simp only [getPath_map_cons, lookup_insert_ne k k2 _ hk]
+      | _ => rw [erasePath_notMap _ _ rfl]
+
+theorem getPath_erasePath_prefix : ∀ (q r : List Str) (m : Val), r ≠ [] →
+    getPath (erasePath m (q ++ r)) q = (getPath m q).map (fun sub => erasePath sub r) := by
+  intro q
+  induction q with
+  | nil => intro r m _; simp [getPath_nil]
+  | cons k q ih =>
+    intro r m hr
+    cases m with
+    | map kvs =>
+      rw [List.cons_append, erasePath_cons_ne kvs k (q ++ r) (by simp [hr])]
+      cases hl : lookup k kvs with
+      | none => simp [getPath_map_cons, hl]
+      | some c =>
+        simp only [getPath_map_cons, lookup_insert_self, hl, Option.bind_some]
+        exact ih r c hr
+    | _ => rw [erasePath_notMap _ _ rfl, getPath_notMap_cons _ _ _ rfl]; rfl
+
 end Mxj
